@@ -112,6 +112,14 @@ class Closure:
         return V(KFn, z3.IntVal(self.id), meta=self)
 
 
+class Pack:
+    """Opaque *args / **kwargs pack of the function under verification, passed on unchanged."""
+
+    def __init__(self, name):
+        self.name = name
+        self.star_items = True
+
+
 class StaticDict:
     """Dict literal with distinct concrete string keys: iteration can be unrolled exactly."""
 
@@ -169,6 +177,7 @@ class Engine:
         self.bound_stack: list = []
         self.ghost_spec_env: dict[str, V] = {}
         self.uf_cache: dict = {}
+        self._named: dict = {}
 
     # ------------------------------------------------------------------ utilities
     def site(self, kind):
@@ -301,7 +310,17 @@ class Engine:
             self.fact(st, z3.And(val.term >= 0, val.term < st.nxt))
         elif isinstance(k, KDict):
             ops = DictOps(k)
-            for f in ops.rep_inv(val.term):
+            d = val.term
+            if not z3.is_const(d):
+                # patterns may not contain ite/store terms: name the dict value
+                key = d.get_id()
+                if key in self._named:
+                    return
+                dc = z3.Const(fresh_name('dict'), d.sort())
+                self._named[key] = dc
+                self.fact(st, dc == d)
+                d = dc
+            for f in ops.rep_inv(d):
                 self.fact(st, f)
         elif isinstance(k, KTuple):
             for it in tuple_items(val):
@@ -343,6 +362,10 @@ class Engine:
             name = a.arg
             if name == 'self' and not fi.is_static and frame.self_cls:
                 kind = KRef(frame.self_cls)
+            elif (args.vararg and a is args.vararg) or (args.kwarg and a is args.kwarg):
+                v = V(KDyn, z3.Const(fresh_name(name), DynS), meta=Pack(name))
+                st.env[name] = v
+                continue
             elif name in c.params:
                 kind = c.params[name]
             else:
@@ -383,7 +406,6 @@ class Engine:
         # body
         body = body_without_docstring(fi.node)
         res_state, res_val = self.exec_function_body(body, st, frame)
-        self.frames.pop()
         self.final_state = res_state
         self.result_v = res_val
         # ---- exceptional post-conditions (two-sided)
@@ -403,6 +425,12 @@ class Engine:
         if c.raises:
             none = z3.And(*[z3.Not(x) for x in raise_conds.values()])
             self.covers.append(('cover:no-raise', list(self.pre_facts), none))
+        for exc, cl in c.exsures:
+            for ex in self.exits:
+                if ex.exc == exc:
+                    r = self.eval_spec(cl.node, ex.state, self.init_state)
+                    self.oblige(ex.state, self.truth(r), f'{cl.label}@{ex.site}', kind='exsures',
+                                text=f'on raising {exc}: {cl.text}', props=cl.props)
         # ---- normal post-conditions
         if not res_state.dead:
             for cl in c.ensures:
@@ -474,6 +502,8 @@ class Engine:
             if m.startswith('*.'):
                 anyobj.add(m[2:])
                 continue
+            if m.startswith('global:') or m == 'fresh':
+                continue
             node = ast.parse(m, mode='eval').body
             if not isinstance(node, ast.Attribute):
                 raise SpecError(f'modifies clause must be obj.field: {m}')
@@ -482,9 +512,18 @@ class Engine:
             allowed.setdefault(key, []).append(obj.term)
         a0 = z3.Int('alloc0')
         for key, arr in st.heap.items():
-            if key.startswith('$'):
-                if key == '$cls':
+            if key == '$cls' or key.startswith('$ghost:'):
+                continue
+            if key.startswith('$global:'):
+                gname = key.rsplit('.', 1)[1]
+                if f'global:{gname}' in c.modifies:
                     continue
+                init = self.old_heap.get(key)
+                if init is None or z3.eq(init, arr):
+                    continue
+                self.oblige(st, z3.Select(arr, 0) == z3.Select(init, 0), f'frame:{key}', kind='frame',
+                            text=f'module global {gname} is not modified')
+                continue
             init = self.old_heap.get(key)
             if init is None or z3.eq(init, arr):
                 continue
@@ -676,6 +715,9 @@ class Engine:
             key = (self.frames[-1].module, t.id)
             if t.id not in st.env and key in GLOBALS and self._is_global_name(t.id):
                 raise Unsupported('rebinding a module global')
+            fr = self.frames[-1]
+            if fr.contract is not None and t.id in fr.contract.locals:
+                v = self.coerce_local(v, fr.contract.locals[t.id])
             st.env[t.id] = v
         elif isinstance(t, (ast.Tuple, ast.List)):
             items = self.unpack(v, len(t.elts), st)
@@ -688,6 +730,13 @@ class Engine:
             self.assign_subscript(t, v, st)
         else:
             raise Unsupported(f'assignment target {type(t).__name__}')
+
+    def coerce_local(self, v, kind):
+        if v.meta == 'emptydict' and isinstance(kind, KDict):
+            return V(kind, DictOps(kind).empty())
+        if v.meta == 'empty' and isinstance(kind, KList):
+            return V(kind, z3.Empty(kind.sort()))
+        return coerce(v, kind)
 
     def _is_global_name(self, name):
         return True
@@ -1174,6 +1223,9 @@ class Engine:
             raise Unsupported(f'class attribute {m.name}.{attr}')
         if isinstance(m, Closure) and attr == '__name__':
             return StrV(m.qual.split('.')[-1])
+        if base.kind == KFn and m is None and attr == '__name__':
+            f = self.uf_cache.setdefault('fn_name', z3.Function('fn_name', z3.IntSort(), Vm.StrS))
+            return V(KStr, f(base.term))
         if isinstance(base.kind, KRef):
             cls = base.kind.cls
             if cls in self.repo.classes:
@@ -1764,9 +1816,21 @@ class Engine:
         # unknown callable: uninterpreted, pure, total, deterministic
         return self.call_unknown(fn, args, kwargs, st)
 
+    def ghost_int(self, st, name):
+        arr = self.heap_array(st, '$ghost:' + name, KInt)
+        return z3.Select(arr, 0)
+
+    def set_ghost_int(self, st, name, val):
+        arr = self.heap_array(st, '$ghost:' + name, KInt)
+        st.heap['$ghost:' + name] = z3.Store(arr, 0, val)
+
     def call_unknown(self, fn: V, args, kwargs, st):
+        kwargs = dict(kwargs)
+        if '**' in kwargs:
+            args = list(args) + [kwargs.pop('**')]
         if kwargs:
             raise Unsupported('unknown callable with keyword arguments')
+        args = [V(a.kind, a.term) if isinstance(a.meta, tuple) and a.meta[:1] == ('star',) else a for a in args]
         if fn.kind == KDyn:
             self.require(st, DynS.is_fn(fn.term), 'TypeError', 'object is not callable')
             fid = DynS.fid(fn.term)
@@ -1779,8 +1843,19 @@ class Engine:
         name = f'apply{len(dargs)}'
         if name not in self.uf_cache:
             self.uf_cache[name] = z3.Function(name, z3.IntSort(), *([DynS] * len(dargs)), DynS)
-        self.assumptions.add('unknown callables are total, pure and deterministic (uninterpreted function symbols)')
-        return DynV(self.uf_cache[name](fid, *dargs))
+        res = DynV(self.uf_cache[name](fid, *dargs))
+        if self.spec_mode:
+            return res
+        self.set_ghost_int(st, 'calls', self.ghost_int(st, 'calls') + 1)
+        if self.contract.unknown_may_raise:
+            rname = f'raises{len(dargs)}'
+            if rname not in self.uf_cache:
+                self.uf_cache[rname] = z3.Function(rname, z3.IntSort(), *([DynS] * len(dargs)), z3.BoolSort())
+            self.assumptions.add('unknown callables are deterministic: whether they raise and what they return is a function of their arguments')
+            self.require(st, z3.Not(self.uf_cache[rname](fid, *dargs)), 'Exception', 'the called function raises')
+        else:
+            self.assumptions.add('unknown callables are total, pure and deterministic (uninterpreted function symbols)')
+        return res
 
     def bind_params(self, node, args, kwargs, st, module, defaults_env=None):
         a = node.args
